@@ -88,7 +88,10 @@ HEntry(w) == LET c == HClip(w) IN
              [k |-> HKeyOf(w), v |-> CASE hWhat = "grid" -> c [] hWhat = "sed" -> QSed(c) [] OTHER -> QOp(c)]
 
 HVariantOk == \* a memo of the clipped grid keyed on the clipped grid is circular: not a design
-              (hWhat = "grid" => hLevel = "request") /\ (hKey = "none" => (hLevel = "request" /\ hWhat = "sed" /\ hStore = "last"))
+              /\ hWhat = "grid" => hLevel = "request"
+              /\ hKey = "none" => (hLevel = "request" /\ hWhat = "sed" /\ hStore = "last")
+              \* the keep-everything store: one sound and one under-keyed representative (the memo is a set of entries)
+              /\ hStore = "all" => (hLevel = "clip" /\ hWhat = "sed" /\ hKey \in {"content", "size"})
 HInit == /\ hLevel \in HLevels /\ hKey \in HKeys /\ hWhat \in HWhats /\ hStore \in HStores /\ HVariantOk
          /\ win \in HWinIds /\ prev = -1 /\ memo = {} /\ out = <<>> /\ evald = FALSE
 \* another grid is passed to model(): the previous result is no longer looked at
